@@ -1,7 +1,7 @@
 """C03 — max-iterations is a hard ceiling; iteration ids are unique and gapless."""
 from ..core import hx
 ID = "C03"
-PROPS = ["F1Verif.Props.C03", "F1Verif.Props.FactsC03", "F1Verif.Props.CPool", "F1Verif.Props.RefineC03", "F1Verif.Props.RefineC02W", "F1Verif.Props.RefineC15F"]
+PROPS = ["F1Verif.Props.C03", "F1Verif.Props.FactsC03", "F1Verif.Props.CPool", "F1Verif.Props.RefineC03", "F1Verif.Props.RefineC02W", "F1Verif.Props.RefineC15F", "F1Verif.Props.RefineC18N"]
 RULE = ("engine A: sequential NextIteration histories for limits 0..50 and call counts around the limit (model and Spec); "
         "hook-free stress: 4-64 goroutines racing NextIteration for the last ids, hundreds of rounds with small limits; "
         "real pools: trigger pools (several ticks) and continuous (users) pools with T.Iteration recorded by the scenario, "
